@@ -168,7 +168,7 @@ type c02Env struct {
 func newC02Env(c *CfgSpec) (*c02Env, error) {
 	e := &c02Env{spec: c, sem: c.Sem()}
 	for d := 0; d < 2; d++ {
-		mw, err := cors.NewMiddleware(c.Config())
+		mw, err := newMiddlewareVia(c.Config(), int(hashString(specKey(c)))&7+d)
 		if err != nil {
 			return nil, err
 		}
